@@ -220,8 +220,9 @@ def build_samples(pts, scales, nb_scales, seed):
 
 # ----------------------------------------------------------------------------- the REAL routines, two execution modes
 class Evaluator:
-    """mode 'vmapBatch': jax.jit(jax.vmap(f)) over the whole batch (padded to a power of two >= 8);
+    """mode 'vmapBatch': jax.jit(jax.vmap(f)) over the whole batch (in blocks of 8192 tensors, the last one padded by repetition);
     mode 'single': jax.jit(f) called once per tensor."""
+    BATCH = 8192
 
     def __init__(self, mode):
         import optimism.JaxConfig  # noqa: F401  (enables x64)
@@ -245,14 +246,17 @@ class Evaluator:
         self.calls += n
         f = self.fn[name]
         if self.mode == "vmapBatch":
-            size = 8
-            while size < n:
-                size *= 2
-            padded = [onp.concatenate([a, onp.repeat(a[-1:], size - n, axis=0)]) if size > n else a for a in args]
-            out = f(*padded)
-            if isinstance(out, (tuple, list)):
-                return tuple(onp.asarray(x)[:n] for x in out)
-            return onp.asarray(out)[:n]
+            B = self.BATCH                                   # one batch size for every call: one compilation per routine
+            parts = []
+            for a0 in range(0, n, B):
+                part = [a[a0:a0 + B] for a in args]
+                k = len(part[0])
+                padded = [onp.concatenate([a, onp.repeat(a[-1:], B - k, axis=0)]) if k < B else a for a in part]
+                out = f(*padded)
+                parts.append(tuple(onp.asarray(x)[:k] for x in out) if isinstance(out, (tuple, list)) else onp.asarray(out)[:k])
+            if isinstance(parts[0], tuple):
+                return tuple(onp.concatenate([p_[i] for p_ in parts]) for i in range(len(parts[0])))
+            return onp.concatenate(parts)
         outs = []
         for i in range(n):
             out = f(*[a[i] for a in args])
@@ -396,9 +400,9 @@ def expm_ld(X):
         s = onp.maximum(0, onp.ceil(onp.log2(onp.maximum(nr, LD(1e-30))).astype(onp.float64)) + 2).astype(int)
         s = onp.minimum(s, 80)
         Y = X / (LD(2.0) ** s)[:, None, None]
-        E = onp.broadcast_to(onp.eye(3, dtype=LD), X.shape).copy()
+        E = onp.broadcast_to(onp.eye(X.shape[-1], dtype=LD), X.shape).copy()
         T = E.copy()
-        for k in range(1, 30):
+        for k in range(1, 20):                               # |Y| <= 1/4: 0.25^20 / 20! < 1e-30
             T = mm(T, Y) / LD(k)
             E = E + T
         for it in range(int(s.max()) if len(s) else 0):
@@ -484,7 +488,10 @@ def alpha(S, O, ms, dirs):
         C["e_id"] = code(onp.maximum(amax(mm(X, Xn) - I3) / kap, amax(O["logexp"].astype(LD) - A) / kap),
                          VTOL, okx, fin(O["expneg"], O["logexp"]))
         X, fs, okx, C["l_fv"], C["l_eq"], C["l_fr"] = fn_codes("log", None, "log")
-        C["l_id"] = code(onp.maximum(amax(expm_ld(X) - A), amax(O["explog"].astype(LD) - A)), VTOL * nrm + TINY, okx,
+        EX = onp.full(X.shape, onp.nan, LD)
+        if okx.any():
+            EX[okx] = expm_ld(X[okx])                            # 80-bit exponential of the library's logarithm
+        C["l_id"] = code(onp.maximum(amax(EX - A), amax(O["explog"].astype(LD) - A)), VTOL * nrm + TINY, okx,
                          fin(O["explog"]))
         for cl in ("pi", "pn", "pf"):
             for f in ("fv", "id", "eq", "fr"):
@@ -625,7 +632,9 @@ def dense_observe(o, jscales, mode, dev):
     out = []
     X = dev("sqrtm", mode, Ms)
     L = dev("logm", mode, Ms)
-    E = dev("expm", "single", L)
+    with onp.errstate(all="ignore"):
+        E = expm_ld(onp.where(onp.isfinite(L), L, 0.0))          # judged with the 80-bit exponential (jax.scipy.linalg.expm
+    Ej = dev("expm", "single", L)                                # loses 1e-7 at |log M| ~ 20; kept as a drift code only)
     for q, j2 in enumerate(jscales):
         Ml = Ms[q].astype(LD)
         lamj = onp.array(o["D"], LD) * LD(2.0) ** j2
@@ -634,12 +643,13 @@ def dense_observe(o, jscales, mode, dev):
             Xr = (Sl * onp.sqrt(lamj)[None, :]) @ Sil
             Lr = (Sl * onp.log(lamj)[None, :]) @ Sil
             Xl, Ll = X[q].astype(LD), L[q].astype(LD)
-            okX, okL = bool(onp.isfinite(X[q]).all()), bool(onp.isfinite(L[q]).all() and onp.isfinite(E[q]).all())
+            okX, okL = bool(onp.isfinite(X[q]).all()), bool(onp.isfinite(L[q]).all())
             c = dict(j=j2,
-                     sq_id=int(code(onp.abs(Xl @ Xl - Ml).max() / nM, VTOL * condS ** 2, onp.array(okX))),
-                     sq_fv=int(code(onp.abs(Xl - Xr).max() / onp.abs(Xr).max(), VTOL * condS ** 2, onp.array(okX))),
-                     lg_id=int(code(onp.abs(E[q].astype(LD) - Ml).max() / nM, VTOL * condS ** 2, onp.array(okL))),
-                     lg_fv=int(code(onp.abs(Ll - Lr).max() / max(onp.abs(Lr).max(), LD(1)), VTOL * condS ** 2, onp.array(okL))))
+                     sq_id=int(code(onp.abs(Xl @ Xl - Ml).max() / nM, VTOL * condS, onp.array(okX))),
+                     sq_fv=int(code(onp.abs(Xl - Xr).max() / onp.abs(Xr).max(), VTOL * condS, onp.array(okX))),
+                     lg_id=int(code(onp.abs(E[q] - Ml).max() / nM, VTOL * condS * max(onp.abs(Lr).max(), LD(1)), onp.array(okL))),
+                     lg_fv=int(code(onp.abs(Ll - Lr).max() / max(onp.abs(Lr).max(), LD(1)), VTOL * condS, onp.array(okL))),
+                     lg_jx=int(code(onp.abs(Ej[q].astype(LD) - Ml).max() / nM, 1e-6 * condS, onp.array(okL))))
         out.append(c)
     return out, condS, dict(M=Ms.tolist(), sqrtm=X.tolist(), logm=L.tolist())
 
@@ -673,8 +683,14 @@ def build_units(obs, tier, rng, seed):
     for i in range(0, len(sub), 100):                     # single-call units first: their failures get replay files first
         units.append(dict(mode="single", pts=sub[i:i + 100], scales=sscales, nb_scales=[["dec", 0]], ms=POW_M[tier], seed=seed))
     per = 600 if tier == "quick" else 400
-    for i in range(0, len(pts), per):
-        units.append(dict(mode="vmapBatch", pts=pts[i:i + per], scales=scales, nb_scales=nb, ms=POW_M[tier], seed=seed))
+    # thorough: the 15 625 full integer matrices get a subset of the scale factors, the rotated points all 41 decades
+    iscales = scales if tier == "quick" else [["dec", k] for k in (-20, -13, -6, -1, 0, 1, 6, 13, 20)] + [["bin", 0], ["bin", -40]]
+    inb = nb if tier == "quick" else [["dec", 0], ["bin", 0]]
+    rnb = nb if tier == "quick" else [["dec", k] for k in (-20, -10, -3, 0, 1, 3, 10, 20)] + [["bin", 0], ["bin", -40]]
+    for kind, sc_, nb_ in (("rot", scales, rnb), ("int", iscales, inb)):
+        kp = [o for o in pts if o["kind"] == kind]
+        for i in range(0, len(kp), per):
+            units.append(dict(mode="vmapBatch", pts=kp[i:i + per], scales=sc_, nb_scales=nb_, ms=POW_M[tier], seed=seed))
     return units, len(pts)
 
 
@@ -704,7 +720,9 @@ def main(tier, replay=None):
         "pow_symm derivative judged only where its docstring claims accuracy: exactly representable input with exactly "
         "repeated eigenvalues, or well separated (distinct integer / distinct integer-matrix) eigenvalues",
         "dense sqrtm / logm_iss: M = S D S^-1 2^j with S a product of integer shears (exact integer inverse), allowance "
-        "1e-9 * cond_2(S)^2 relative; expm(logm M) uses jax.scipy.linalg.expm",
+        "1e-9 * cond_2(S) relative (cond <= 107 on the lattice); exp(logm M) = M is judged with an 80-bit scaling-and-squaring "
+        "exponential, allowance 1e-9 * cond(S) * max(1, |log M|) (a relative error of log M is an absolute error of its exponent); jax.scipy.linalg.expm(logm M) = M is only a drift code (allowance 1e-6 cond(S): jax's expm itself "
+        "loses 3.5e-7 at |log M| ~ 21)",
     ]
     seed = common.seed()
     rng = random.Random(seed)
@@ -758,6 +776,40 @@ def main(tier, replay=None):
         rep.coverage["dense_points_emitted_by_tlc"] = len(dobs)
         dunits = [dict(o=o, mode=mode, jscales=DENSE_J[tier]) for o in dobs for mode in ("single", "vmapBatch")]
 
+    # ---- dense part
+    did = 0
+    for du in dunits:
+        codes, condS, raw = dense_observe(du["o"], du["jscales"], du["mode"], dense_ev())
+        did += 1
+        o = du["o"]
+        dtraces.append(dict(id=did, mode=du["mode"], n=o["n"], spec=o["spec"], shear=o["shear"], ev=codes))
+        dcases[did] = (du, condS, raw)
+        for c in ("sqrtm_identity", "sqrtm_value", "logm_identity", "logm_value"):
+            rep.count_clause(c, len(codes))
+        if condS > 2e3:
+            rep.machinery("dense lattice point with cond(S) = %g > 2e3" % condS)
+
+    dby = {}
+
+    def on_dfail(tid_, l, clause):
+        if replay and clause != stored_clause:
+            return
+        du, condS, raw = dcases[tid_]
+        o = du["o"]
+        dk = "%s/%s/n=%d" % (clause, du["mode"], o["n"])
+        dby[dk] = dby.get(dk, 0) + 1
+        if dby[dk] > 1 and not replay:
+            return
+        cd = dict(part="dense", tier=tier_of_case, mode=du["mode"], fn=clause.split("_")[0], n=o["n"], spectrum=o["spec"],
+                  shear=o["shear"], unit=dict(du, jscales=[du["jscales"][l - 1]]), condS=condS)
+        rep.fail(clause, cd, dict(j=du["jscales"][l - 1], M=raw["M"][l - 1], sqrtm=raw["sqrtm"][l - 1], logm=raw["logm"][l - 1]))
+
+    if dtraces:
+        trace.validate("DenseMatFnTrace.tla", "DenseMatFnTrace.cfg", dtraces, rep, on_fail=on_dfail, chunk=2000)
+        rep.coverage["dense_real_function_calls"] = dense_ev().calls
+        if dby:
+            rep.coverage["dense_failures_by_clause_mode_size"] = dict(sorted(dby.items()))
+
     # ---- symmetric 3x3 part
     nsamples = 0
     tid = 0
@@ -808,32 +860,6 @@ def main(tier, replay=None):
         trace.validate("SymTensorTrace.tla", "SymTensorTrace.cfg", traces, rep, on_fail=on_fail, chunk=8)
     if byp:
         rep.coverage["failures_by_clause_mode_mult_rank_exactness"] = {"/".join(map(str, k)): v for k, v in sorted(byp.items(), key=str)}
-
-    # ---- dense part
-    did = 0
-    for du in dunits:
-        codes, condS, raw = dense_observe(du["o"], du["jscales"], du["mode"], dense_ev())
-        did += 1
-        o = du["o"]
-        dtraces.append(dict(id=did, mode=du["mode"], n=o["n"], spec=o["spec"], shear=o["shear"], ev=codes))
-        dcases[did] = (du, condS, raw)
-        for c in ("sqrtm_identity", "sqrtm_value", "logm_identity", "logm_value"):
-            rep.count_clause(c, len(codes))
-        if condS > 2e3:
-            rep.machinery("dense lattice point with cond(S) = %g > 2e3" % condS)
-
-    def on_dfail(tid_, l, clause):
-        if replay and clause != stored_clause:
-            return
-        du, condS, raw = dcases[tid_]
-        o = du["o"]
-        cd = dict(part="dense", tier=tier_of_case, mode=du["mode"], fn=clause.split("_")[0], n=o["n"], spectrum=o["spec"],
-                  shear=o["shear"], unit=dict(du, jscales=[du["jscales"][l - 1]]), condS=condS)
-        rep.fail(clause, cd, dict(j=du["jscales"][l - 1], M=raw["M"][l - 1], sqrtm=raw["sqrtm"][l - 1], logm=raw["logm"][l - 1]))
-
-    if dtraces:
-        trace.validate("DenseMatFnTrace.tla", "DenseMatFnTrace.cfg", dtraces, rep, on_fail=on_dfail, chunk=2000)
-        rep.coverage["dense_real_function_calls"] = dense_ev().calls
 
     if not replay:
         for c in CLAUSE_FIELDS:
